@@ -169,12 +169,13 @@ class Run:
             if e['op'] != 'mark':
                 yield ('after', i, None)
 
-    def recovered(self, imgdir, read_only=False, writes=False, stop=None, want=None):
+    def recovered(self, imgdir, read_only=False, writes=False, stop=None, want=None, blob_dir=None):
         """Open the image with the real FileStorage; return (n, detail): n = number k such that the recovered
         storage answers every query exactly like the model history after k commits; -1 if none / error."""
         from ZODB.FileStorage import FileStorage
         try:
-            st = FileStorage(os.path.join(imgdir, DATA), read_only=read_only, **({'stop': stop} if stop is not None else {}))
+            st = FileStorage(os.path.join(imgdir, DATA), read_only=read_only, **dict({'stop': stop} if stop is not None else {},
+                                                                                     **({'blob_dir': blob_dir} if blob_dir else {})))
         except Exception as ex:
             return [], 'open raised %s: %s' % (type(ex).__name__, str(ex)[:120])
         try:
@@ -282,6 +283,9 @@ class Run:
         def dirhash():
             h = hashlib.md5()
             for name in sorted(os.listdir(img)):
+                if os.path.isdir(os.path.join(img, name)):
+                    h.update(name.encode() + b'/' + repr(sorted(os.listdir(os.path.join(img, name)))).encode())
+                    continue
                 with open(os.path.join(img, name), 'rb') as f:
                     h.update(name.encode() + b'\0' + f.read() + b'\1')
                 h.update(str(os.stat(os.path.join(img, name)).st_mtime_ns).encode())
@@ -331,12 +335,14 @@ class Run:
             extra = {IDX: snaps[-1][2]} if snaps and rng.random() < 0.5 else {}
             image(extra)
             before = dirhash()
-            n, det = self.recovered(img, read_only=True, writes=True)
+            # (every third time the storage is told of a blob directory that does not exist: it must not appear)
+            robd = os.path.join(img, 'blobs') if nimg % 3 == 1 else None
+            n, det = self.recovered(img, read_only=True, writes=True, blob_dir=robd)
             refused = self._refused
             after = dirhash()
             nimg += 1
             probes.setdefault(('ro', i), []).append({'n': n, 'modified': before != after, 'refused': refused,
-                                                     'variant': 'index' if extra else 'noindex'})
+                                                     'variant': ('index' if extra else 'noindex') + ('+blobdir' if robd else '')})
             if not n or before != after or not refused:
                 details.append({'at': i, 'kind': 'ro', 'detail': det or ('modified=%s refused=%s' % (before != after, refused))})
             # time travel (read-only, stop=tid): the state as of an earlier transaction, with and without an index file
